@@ -180,11 +180,11 @@ def judge_error(site, cls, e):
     if cls == 'ok':
         return viol('%s:valid-config-raises' % site,
                     'acyclic, fully defined configuration raised %s: %s' % (type(e).__name__, e),
-                    'samples', '%s: %s' % (type(e).__name__, e))
+                    'samples', type(e).__name__)        # message only in msg: it may name hash-ordered items
     if not is_config_error(e):
         return viol('%s:%s-raises-%s' % (site, cls, 'non-ConfigError'),
                     '%s configuration raised %s instead of a ConfigError: %s' % (cls, type(e).__name__, e),
-                    'ConfigError', '%s: %s' % (type(e).__name__, e))
+                    'ConfigError', type(e).__name__)
     return None
 
 
